@@ -863,10 +863,10 @@ def ops_phase(ctx, book, fut, mi, variant, tid0):
     ctx.validated(nedges)
     # every state as a recorded execution (real files through write_to_path/from_path), a sample with git-driven histories
     nodes = [n for n in order if node_real[n][0]]
-    if ctx.quick:       # quick tier: a sample of the states is recorded (all transitions were replayed above)
-        pos = {n: i for i, n in enumerate(order)}
-        nodes = sorted(ctx.rng.sample(nodes, min(1500, len(nodes))), key=pos.get)
-    nsample = ctx.pick(200, 6000)
+    # a sample of the states is recorded for TLC (all states and transitions were replayed and compared above)
+    pos = {n: i for i, n in enumerate(order)}
+    nodes = sorted(ctx.rng.sample(nodes, min(ctx.pick(1500, 15000), len(nodes))), key=pos.get)
+    nsample = ctx.pick(200, 3000)
     chosen = set(ctx.rng.sample(nodes, min(nsample, len(nodes))))
     cfgs = [node_real[n][0] for n in nodes]
     hists = [([h for h in (git_op(*lab(pl)) for pl in node_real[n][1]) if h] if n in chosen else None) for n in nodes]
@@ -974,7 +974,7 @@ def run(ctx):
     # 4. inputs TLC does not enumerate
     extra = sweep_cases()
     nsweep = len(extra)
-    extra += random_cases(ctx, ctx.pick(300, 6000))
+    extra += random_cases(ctx, ctx.pick(300, 4000))
     ctx.log(f"executing {len(extra)} more configurations (byte sweep, random)")
     outs = execute_cfgs(ctx, extra)
     ctx.log("executed")
